@@ -15,6 +15,7 @@ Line protocol of C02 (stateful: the directory of the current case).
   open <entry>                      spikeglx.Reader(entry)     entry: bin|cbin|meta
   slice <sizes> <start> <stop> <step>   _raw[start:stop:step] on both backends; rows are numbered 0.. ; N = None
   index <sizes> <i>                 _raw[i] on both backends
+  openns <metaNs> <frame> <nbytes> <chNs>   sample count exposed by Reader.open on x.cbin / x.bin when x.meta announces metaNs
 
 Answers: `<outcome> fb=<bin|cbin> | <state>` for calls, `<ok bin|ok cbin|ok none|err X> rec=<chunks>` for open,
 `cbin=<…> bin=<…>` for reads.
@@ -125,6 +126,10 @@ def step (s : Hist Nat Nat) (t : List String) : Hist Nat Nat × String :=
   | ["slice", sizes, a, b, st] =>
     match natList? sizes, optInt? a, optInt? b, optInt? st with
     | some sizes, some a, some b, some st => (s, bothBackends sizes (.slice a b st))
+    | _, _, _, _ => (s, "bad-op")
+  | ["openns", m, f, nb, ch] =>
+    match nat? m, nat? f, nat? nb, nat? ch with
+    | some m, some f, some nb, some ch => (s, s!"cbin={ChunkRead.openNsCbin m ch} bin={ChunkRead.openNsBin m f nb}")
     | _, _, _, _ => (s, "bad-op")
   | ["index", sizes, i] =>
     match natList? sizes, int? i with
